@@ -13,6 +13,7 @@ import (
 	"crypto/sha256"
 	"encoding/binary"
 	"fmt"
+	"os"
 	"runtime/debug"
 	"sort"
 	"testing"
@@ -72,6 +73,11 @@ func (c *Chain) Tx(name string, validate func() error, fn func() error) (err err
 			return verr
 		}
 	}
+	// the real chain's ante handler (x/dualstaking/ante) resets the "dualstaking hooks disabled"
+	// flag for every transaction that is not a staking redelegation (the redelegation action sets it
+	// itself inside its transaction); without this a flag left by a redelegation would switch the
+	// hooks off for every later transaction of the harness - an artefact, not chain behaviour
+	c.TS.Keepers.Dualstaking.SetDisableDualstakingHook(c.TS.Ctx, false)
 	snap := testkeeper.VerifBankSnapshot()
 	parentCtx, parentGo := c.TS.Ctx, c.TS.GoCtx
 	cctx, write := parentCtx.CacheContext()
@@ -80,6 +86,9 @@ func (c *Chain) Tx(name string, validate func() error, fn func() error) (err err
 		c.TS.Ctx, c.TS.GoCtx = parentCtx, parentGo
 		if r := recover(); r != nil {
 			err = fmt.Errorf("tx panic: %v", r)
+			if os.Getenv("VERIF_PANIC_STACK") != "" {
+				fmt.Printf("VERIF-DEBUG tx panic in %s: %v\n%s\n", name, r, debug.Stack())
+			}
 		}
 		if err != nil {
 			testkeeper.VerifBankRestore(snap)
